@@ -2,41 +2,150 @@ package rules
 
 import (
 	"fmt"
+	"go/ast"
 	"go/token"
+	"go/types"
 	"sort"
 	"strings"
 
-	"golang.org/x/tools/go/ssa"
+	"golang.org/x/tools/go/packages"
 
 	"gofasta-verif/core"
 )
 
 // checkNoDeferInLoops: a `defer` inside a loop of a library function runs only when the function returns, so a
 // per-item resource (one output file per query) stays open for every item processed: on a large input the process
-// runs out of file descriptors part-way through. Deferred calls in library code must sit outside loops.
+// runs out of file descriptors part-way through. Deferred calls in library code must sit outside loops whose trip
+// count depends on the input. A function literal is its own function (its defers run when the literal returns), and
+// a loop whose trip count is a compile-time constant (range over an array or a composite literal, `i < constant`)
+// holds a bounded number of deferred calls and is not reported.
 func checkNoDeferInLoops(c *core.Ctx, rule string) {
 	var bad []string
 	var pos token.Pos
 	n := 0
-	for _, f := range c.RepoFuncs() {
-		if f.Pkg == nil || !strings.HasPrefix(c.RelOf(f.Pkg.Pkg), "pkg/") {
+	for rel, p := range c.Pkgs {
+		if !strings.HasPrefix(rel, "pkg/") {
 			continue
 		}
-		for _, b := range f.Blocks {
-			for _, ins := range b.Instrs {
-				d, ok := ins.(*ssa.Defer)
+		for _, file := range p.Syntax {
+			if strings.HasSuffix(c.Fset.Position(file.Pos()).Filename, "_test.go") {
+				continue
+			}
+			var stack []ast.Node
+			ast.Inspect(file, func(nd ast.Node) bool {
+				if nd == nil {
+					stack = stack[:len(stack)-1]
+					return true
+				}
+				stack = append(stack, nd)
+				d, ok := nd.(*ast.DeferStmt)
 				if !ok {
-					continue
+					return true
 				}
 				n++
-				if blockInLoop(b) {
-					bad = append(bad, fmt.Sprintf("%s: %s defers %s inside a loop: it runs when the function returns, not at the end of the iteration", c.PosStr(d.Pos()), fnKey(f), d.Common().String()))
+				fn := ""
+				var loop ast.Node
+				for i := len(stack) - 2; i >= 0; i-- {
+					switch s := stack[i].(type) {
+					case *ast.FuncLit:
+						i = -1 // the literal's own frame
+					case *ast.FuncDecl:
+						fn = s.Name.Name
+						i = -1
+					case *ast.ForStmt, *ast.RangeStmt:
+						if loop == nil && !constantTripCount(p, s) {
+							loop = s
+						}
+					}
+				}
+				if loop != nil {
+					bad = append(bad, fmt.Sprintf("%s: %s.%s defers %s inside the loop at line %d: it runs when the function returns, not at the end of the iteration", c.PosStr(d.Pos()), p.Types.Name(), fn, types.ExprString(d.Call.Fun), c.Fset.Position(loop.Pos()).Line))
 					pos = d.Pos()
 				}
-			}
+				return true
+			})
 		}
 	}
 	sort.Strings(bad)
 	c.Count("deferred_calls_in_library_code", n)
 	c.Ob(rule+"/no-defer-inside-a-loop", len(bad) == 0, pos, "%s", first(bad, 3))
+}
+
+// constantTripCount: the loop runs a number of times fixed at compile time.
+func constantTripCount(p *packages.Package, loop ast.Node) bool {
+	isConst := func(e ast.Expr) bool {
+		tv, ok := p.TypesInfo.Types[e]
+		return ok && tv.Value != nil
+	}
+	switch s := loop.(type) {
+	case *ast.RangeStmt:
+		x := ast.Unparen(s.X)
+		if cl, ok := x.(*ast.CompositeLit); ok {
+			for _, e := range cl.Elts {
+				if _, kv := e.(*ast.KeyValueExpr); kv {
+					return false
+				}
+			}
+			return true
+		}
+		if isConst(x) {
+			return true // range over an integer constant or a constant string
+		}
+		t := p.TypesInfo.TypeOf(x)
+		if t == nil {
+			return false
+		}
+		if pt, ok := t.Underlying().(*types.Pointer); ok {
+			t = pt.Elem()
+		}
+		_, arr := t.Underlying().(*types.Array)
+		return arr
+	case *ast.ForStmt:
+		// for i := c0; i < c1; i++ with constant bounds and no other assignment to i
+		init, ok := s.Init.(*ast.AssignStmt)
+		if !ok || len(init.Lhs) != 1 || len(init.Rhs) != 1 || !isConst(init.Rhs[0]) {
+			return false
+		}
+		iv, ok := init.Lhs[0].(*ast.Ident)
+		if !ok {
+			return false
+		}
+		cond, ok := s.Cond.(*ast.BinaryExpr)
+		if !ok || (cond.Op != token.LSS && cond.Op != token.LEQ && cond.Op != token.NEQ) || !isConst(cond.Y) {
+			return false
+		}
+		if ci, ok := cond.X.(*ast.Ident); !ok || p.TypesInfo.ObjectOf(ci) != p.TypesInfo.ObjectOf(iv) {
+			return false
+		}
+		post, ok := s.Post.(*ast.IncDecStmt)
+		if !ok || post.Tok != token.INC {
+			return false
+		}
+		if pi, ok := post.X.(*ast.Ident); !ok || p.TypesInfo.ObjectOf(pi) != p.TypesInfo.ObjectOf(iv) {
+			return false
+		}
+		obj := p.TypesInfo.ObjectOf(iv)
+		mutated := false
+		ast.Inspect(s.Body, func(nd ast.Node) bool {
+			switch a := nd.(type) {
+			case *ast.AssignStmt:
+				for _, l := range a.Lhs {
+					if id, ok := l.(*ast.Ident); ok && p.TypesInfo.ObjectOf(id) == obj {
+						mutated = true
+					}
+				}
+			case *ast.IncDecStmt:
+				if id, ok := a.X.(*ast.Ident); ok && p.TypesInfo.ObjectOf(id) == obj {
+					mutated = true
+				}
+			case *ast.UnaryExpr:
+				if id, ok := a.X.(*ast.Ident); ok && a.Op == token.AND && p.TypesInfo.ObjectOf(id) == obj {
+					mutated = true
+				}
+			}
+			return true
+		})
+		return !mutated
+	}
+	return false
 }
